@@ -9,13 +9,14 @@ Space (everything below is enumerated completely, nothing is sampled)
              (P,  for PRINT)  every member of the family with <= n snippets of the WHOLE 27-snippet alphabet (every
              directive type: open, close, commodity, pad, balance, transaction, note, event, query, price, document,
              custom); quick n <= 2 (379 ledgers), thorough n <= 3 (3 304)
-             + two ledgers outside the bound, for all three statements: the full alphabet, and LONGTEXT (payees /
+             + three ledgers outside the bound, for all three statements: the full alphabet, the full alphabet
+             without pad / plugin (round trip over every directive type at once), and LONGTEXT (payees /
              narrations shorter than, equal to and longer than the register's widths 48 / 80)
   BALANCES   AT f in {absent, units, cost}  x  FROM menu  x  WHERE in {absent, account ~ 'Assets', number > 0,
              currency = 'USD'}
   JOURNAL    account pattern in {absent, '', 'Assets', 'Assets:Cash|Expenses', 'NoSuchAccount' (matches nothing),
              'aSSets:ca' (case varied), '^Income|Card$' (anchors), two patterns containing a double quote}
-             x AT f  x  FROM menu
+             x AT f  x  FROM menu                 (per BJ ledger: quick 348 + 783, thorough 924 + 2 079 statements)
   FROM menu  absent; filter expressions year = 2020, date < 2020-01-10, date >= 2020-02-01, flag = '*',
              payee ~ 'bro|caf', narration ~ 'lunch|buy|conv', has_account('Expenses'), NOT has_account('Cash'),
              year = 2020 AND NOT has_account('Inv');  OPEN ON d / CLOSE [ON e] / CLEAR: quick a list of 15 subsets
@@ -26,7 +27,7 @@ Space (everything below is enumerated completely, nothing is sampled)
              NOT (type = 'transaction' OR type = 'price'); year = 2019, year = 2020, NOT year = 2019,
              date < 2020-01-10, date >= 2020-02-01, type = 'transaction' AND date < 2020-01-10; flag = '*', flag = '!',
              payee ~, narration ~, has_account('Expenses'), has_account('cash'), NOT has_account('Cash'); the
-             OPEN/CLOSE/CLEAR list, alone and under three expressions
+             OPEN/CLOSE/CLEAR list, alone and under three expressions   (per ledger: quick 57, thorough 282)
   text       every distinct statement of the menus is unparsed (vt.unparse), parsed by the real parser and must
              give exactly the AST that is executed (so that feeding ASTs is the same as feeding text).
 
@@ -70,16 +71,21 @@ Scope / weakest readings
 Harness note: compiler.transform_balances / transform_journal re-parse a template text on every compile (70-120 ms).
   During this check ``beanquery.parser.parse`` is memoised BY TEXT (a pure function; every distinct text still goes
   through the real parser once per process, failures included), as C13 does.
-Fingerprints: balances:order | balances:accounts | balances:sums | balances:datatypes | balances:columns,
+Fingerprints: balances:order | balances:rows | balances:datatypes | balances:columns,
   journal:rows | journal:col:<date|flag|payee|narration|account|position|balance> | journal:datatypes |
-  journal:columns | journal:pattern-quote, print:selection | print:roundtrip | print:roundtrip-meta,
+  journal:columns | journal:pattern-quote, print:selection | print:rendering | print:roundtrip | print:roundtrip-meta,
   text:<kind> (unparse/parse disagreement), crash fingerprints (vt.harness.crash_fingerprint).
+  When something is reported the family is re-walked simplest first (<= 2 snippets) so that the recorded case of
+  every fingerprint is the smallest ledger and earliest statement showing it.
+Finding on the unchanged tree: ``journal:pattern-quote`` -- transform_journal formats the account pattern into
+  ``WHERE account ~ "<pattern>"`` and re-parses the text, so a pattern containing a double quote is a ParseError
+  at compile time (JOURNAL 'a"b') or changes the condition (JOURNAL 'Zzz" OR account ~ "Assets' lists the Assets
+  postings although no account matches that regular expression).
 """
 import collections
 import datetime
 import io
 import re
-import textwrap
 
 import beanquery
 from beanquery import parser as bq_parser
@@ -517,12 +523,7 @@ class Checker:
         got_accounts = [r[0] for r in rows]
         # differential with the SELECT of the property
         if not same_rows(rows, rrows):
-            if sorted(map(repr, rows)) == sorted(map(repr, rrows)):
-                fp = 'balances:order'
-            elif sorted(got_accounts) != sorted(r[0] for r in rrows):
-                fp = 'balances:accounts'
-            else:
-                fp = 'balances:sums'
+            fp = 'balances:order' if sorted(map(repr, rows)) == sorted(map(repr, rrows)) else 'balances:rows'
             self.violation(fp, f'{text} returned {rows!r}; {show(ref)} returned {rrows!r}', case)
             return
         if dtypes != rdtypes or dtypes != [str, Inv]:
@@ -532,7 +533,7 @@ class Checker:
         expected_order = sorted(groups, key=led.sort_key)
         nonempty = [a for a in expected_order if not groups[a].is_empty()]
         if len(set(got_accounts)) != len(got_accounts) or not set(nonempty) <= set(got_accounts) <= set(groups):
-            self.violation('balances:accounts', f'{text}: accounts {got_accounts!r}; the selected postings have accounts '
+            self.violation('balances:rows', f'{text}: accounts {got_accounts!r}; the selected postings have accounts '
                            f'{expected_order!r} (those with an empty sum optional: {sorted(set(expected_order) - set(nonempty))!r})', case)
             return
         if got_accounts != sorted(got_accounts, key=led.sort_key):
@@ -541,7 +542,7 @@ class Checker:
             return
         for a, inv in rows:
             if inv != groups[a]:
-                self.violation('balances:sums', f'{text}: {a} = {inv}; the Inventory fold of the selected postings is {groups[a]}', case)
+                self.violation('balances:rows', f'{text}: {a} = {inv}; the Inventory fold of the selected postings is {groups[a]}', case)
                 return
         acc.count('balances_compared')
         if rows:
@@ -551,6 +552,8 @@ class Checker:
         if len({led.sort_key(a)[0] for a in got_accounts}) > 1 and got_accounts != sorted(got_accounts):
             acc.count('balances_where_type_order_differs_from_name_order')
         acc.add('balances_outcomes', hash(repr(rows)))
+        if len(rows) > 2 and order % 97 == 31:
+            acc.sample({'ledger': led.label, 'statement': text, 'result': repr(rows)[:400]}, limit=2)
         return rows
 
     # ---- JOURNAL -------------------------------------------------------------------------------------
@@ -622,6 +625,8 @@ class Checker:
             acc.count('empty_results')
         acc.count('journal_truncated_cells', sum(1 for r, x in zip(rows, exp) for k in (2, 3) if r[k] != x[k]))
         acc.add('journal_outcomes', hash(repr(rows)))
+        if len(rows) > 2 and order % 97 == 5 and len(acc.samples) in (2, 3):
+            acc.sample({'ledger': led.label, 'statement': text, 'rows': len(rows), 'last_row': repr(rows[-1])[:300]}, limit=4)
         return rows
 
     @staticmethod
@@ -677,9 +682,13 @@ class Checker:
         if got != want:
             heads = [ln for ln in got.splitlines() if re.match(r'\d{4}-\d\d-\d\d ', ln)]
             wheads = [ln for ln in want.splitlines() if re.match(r'\d{4}-\d\d-\d\d ', ln)]
-            self.violation('print:selection', f'{text} printed {len(heads)} directives {heads[:8]!r}; the directives satisfying the '
-                           f'FROM clause, in ledger order, are {len(wheads)}: {wheads[:8]!r}'
-                           + ('' if heads != wheads else ' (same directive headers, the bodies differ)'), case)
+            if heads != wheads:
+                self.violation('print:selection', f'{text} printed {len(heads)} directives {heads[:8]!r}; the directives satisfying '
+                               f'the FROM clause, in ledger order, are {len(wheads)}: {wheads[:8]!r}', case)
+            else:
+                diff = next(((a, b) for a, b in zip(got.splitlines(), want.splitlines()) if a != b), (got[-80:], want[-80:]))
+                self.violation('print:rendering', f'{text} printed the expected directives but not the text of beancount.parser.printer '
+                               f'with the documented display context: first differing line {diff[0]!r}, expected {diff[1]!r}', case)
             return
         acc.count('print_compared')
         if want_entries:
@@ -692,6 +701,8 @@ class Checker:
                 self.violation('print:selection', f'{text}: nothing selected but the output is {got!r}', case)
                 return
         acc.add('print_outcomes', hash(got))
+        if 0 < len(want_entries) < 4 and order % 7 == 3 and len(acc.samples) in (4, 5):
+            acc.sample({'ledger': led.label, 'statement': text, 'output': got[:400]}, limit=6)
         # lossless clause
         if led.roundtrip and EXPRS[spec[0]][2] and spec[1:] == (None, None, None):
             acc.count('roundtrips')
@@ -755,7 +766,7 @@ def explore_ledger(acc, led, cases):
             chk.print_(*params, order)
 
 
-def family_ledger(names, text, seed, which):
+def family_ledger(names, text, seed):
     rt = not any(n in NO_ROUNDTRIP for n in names)
     return Ledger(f'{list(names)}', text, {'ledger': {'family': list(names)}, 'seed': seed}, rt)
 
@@ -796,8 +807,6 @@ def text_phase(acc, shard, nshards, thorough):
         if parsed != stmt:
             acc.violation(f'text:{kind}', f'{text!r} parses to {parsed!r}, the statement explored is {stmt!r}',
                           {'kind': 'text', 'text': text, 'ast': repr(stmt)})
-        if i % 997 == 0:
-            acc.sample({'statement_text': text})
 
 
 def bounds(thorough):
@@ -816,20 +825,15 @@ def shard_fn(shard, nshards, tier, seed):
     # BALANCES / JOURNAL over the posting family
     for index, names, text in ledgers.family_sharded(n_bj, shard, nshards, seed=seed, exclude=BJ_EXCLUDE):
         acc.count('bj_ledgers')
-        led = family_ledger(names, text, seed, 'bj')
+        led = family_ledger(names, text, seed)
         explore_ledger(acc, led, bj)
-        if index in (5, 50):
-            acc.sample({'ledger': list(names), 'statements': [show(balances_stmt(*bj[7][1])), show(journal_stmt(*bj[-20][1]))],
-                        'postings': sum(len(e.postings) for e in led.entries if _txn(e))})
     # PRINT over the whole family (offset the shard so that the heavy first shards are not the same)
     for index, names, text in ledgers.family_sharded(n_p, (shard + nshards // 2) % nshards, nshards, seed=seed):
         acc.count('print_ledgers')
-        led = family_ledger(names, text, seed, 'print')
+        led = family_ledger(names, text, seed)
         if led.roundtrip:
             acc.count('print_ledgers_with_roundtrip')
         explore_ledger(acc, led, pr)
-        if index in (9, 200):
-            acc.sample({'ledger': list(names), 'statement': show(print_stmt(*pr[20][1])), 'directives': len(led.entries)})
     for k, name in enumerate(EXTRAS):
         if mine(k * 5 + 3, shard, nshards):
             acc.count('extra_ledgers')
@@ -849,7 +853,7 @@ def replay(case):
     seed = case.get('seed', 0)
     ld = case['ledger']
     if 'family' in ld:
-        led = family_ledger(tuple(ld['family']), ledgers.text_of(ld['family'], seed), seed, None)
+        led = family_ledger(tuple(ld['family']), ledgers.text_of(ld['family'], seed), seed)
     else:
         led = extra_ledger(ld['extra'], seed)
     chk = Checker(acc, led)
@@ -864,6 +868,37 @@ def replay(case):
     return [v for v in acc.violations if want is None or v.fingerprint == want]
 
 
+def minimise(violations, seed, thorough):
+    """For every reported fingerprint, put the smallest family ledger (<= 2 snippets, simplest first) and the
+    earliest statement showing it first: the runner records the first case per fingerprint."""
+    install_parse_memo()
+    fps = []
+    for v in violations:
+        if v.fingerprint not in fps and not v.fingerprint.startswith('text:'):
+            fps.append(v.fingerprint)
+    found = {}
+
+    def walk(exclude, cases, wanted):
+        wanted = [fp for fp in wanted if fp not in found]
+        if not wanted:
+            return
+        for _, names, text in ledgers.family_sharded(2, 0, 1, seed=seed, exclude=exclude):
+            acc = Acc()
+            acc.MAX_VIOL_PER_FP = 1
+            explore_ledger(acc, family_ledger(names, text, seed), cases)
+            for v in acc.violations:
+                if v.fingerprint in wanted and v.fingerprint not in found:
+                    found[v.fingerprint] = v
+            if all(fp in found for fp in wanted):
+                return
+
+    bj = bj_cases(thorough)
+    walk(BJ_EXCLUDE, [c for c in bj if c[0] == 'balances'], [fp for fp in fps if not fp.startswith(('journal:', 'print:'))])
+    walk(BJ_EXCLUDE, [c for c in bj if c[0] == 'journal'], [fp for fp in fps if not fp.startswith(('balances:', 'print:'))])
+    walk((), print_cases(thorough), [fp for fp in fps if not fp.startswith(('balances:', 'journal:'))])
+    return [found[fp] for fp in fps if fp in found] + sorted(violations, key=_size)
+
+
 def _size(v):
     ld = v.case.get('ledger', {})
     names = ld.get('family')
@@ -874,7 +909,8 @@ def run(ctx):
     thorough = ctx.thorough
     n_bj, n_p = bounds(thorough)
     acc = run_shards(shard_fn, ctx.jobs, ctx.tier, ctx.seed, nshards=max(ctx.jobs, 1) * 4)
-    acc.violations.sort(key=_size)          # smallest ledger / earliest statement first for every fingerprint
+    if acc.violations:
+        acc.violations = minimise(acc.violations, ctx.seed, thorough)
     bj_size = ledgers.family_size(n_bj, exclude=BJ_EXCLUDE)
     p_size = ledgers.family_size(n_p)
     assert acc.n['bj_ledgers'] == bj_size and acc.n['print_ledgers'] == p_size, (acc.n['bj_ledgers'], bj_size, acc.n['print_ledgers'], p_size)
